@@ -15,7 +15,7 @@ from fractions import Fraction
 
 from .. import build, paths
 from ..ir import AnalysisError
-from ..paths import fmt, strip_casts, eval_concrete, NoValue
+from ..paths import fmt, strip_casts, eval_concrete, NoValue, ptr_parts
 
 P = (1 << 31) - 1
 A = 16807
@@ -374,7 +374,8 @@ def check_single_evaluation(chk, m):
     for p in ps:
         pid = "rand31_r(cur()) path " + "->".join(b.lstrip("%") for b in p.blocks)
         calls = [e for e in p.events if e.kind == "call" and not isinstance(e.callee, str)]
-        cells = set(e.ptr for e in p.events if e.kind in ("load", "store"))
+        # the generator's state cells: locals of the implementation (allocas) are not state
+        cells = set(e.ptr for e in p.events if e.kind in ("load", "store") and ptr_parts(e.ptr)[0][0] not in ("alloca", "g"))
         ok = len(calls) == 1 and cells == {calls[0].res}
         chk.ob("M5.single-evaluation", pid, ok,
                "the argument expression is evaluated once and the state is read and written through that value" if ok else
